@@ -338,8 +338,9 @@ class Reject:
 
 
 class Ctx:
-    def __init__(self, pid, tier="quick", seed=0, keep=False):
+    def __init__(self, pid, tier="quick", seed=0, keep=False, extension=False):
         self.pid = pid
+        self.extension = extension
         self.tier = tier
         self.seed = seed
         self.rng = random.Random(seed)
@@ -510,7 +511,10 @@ class Ctx:
         with open(path, "w") as f:
             json.dump(body, f, indent=1, default=str)
         self.violations.append(dict(fingerprint=fingerprint, what=what, path=path, count=1))
-        print("VIOLATION property=%s replay=%s" % (self.pid, path), flush=True)
+        if self.extension:
+            print("EXTRA-ALARM module=%s replay=%s" % (self.pid, path), flush=True)
+        else:
+            print("VIOLATION property=%s replay=%s" % (self.pid, path), flush=True)
         print("  what: %s" % what, flush=True)
         return True
 
@@ -566,8 +570,9 @@ class Ctx:
             wall_s=round(wall, 2),
             violations=len(self.violations),
         )
-        os.makedirs(EVDIR, exist_ok=True)
-        path = os.path.join(EVDIR, "%s.json" % self.pid)
+        evdir = os.path.join(EVDIR, "extras") if self.extension else EVDIR
+        os.makedirs(evdir, exist_ok=True)
+        path = os.path.join(evdir, "%s.json" % self.pid)
         tmp = path + ".tmp%d" % os.getpid()
         with open(tmp, "w") as f:
             json.dump(ev, f, indent=1, default=str)
@@ -576,4 +581,6 @@ class Ctx:
             shutil.rmtree(self.work, ignore_errors=True)
         self.log("done: %d TLC states, %d real traces accepted, %d violations, %d known-finding hits, %.1fs" % (
             self.states, self.traces_ok, len(self.violations), sum(self.known_seen.values()), wall))
-        return 1 if self.violations else 0
+        self.summary = dict(module=self.pid, specs=meta.get("specs", []), states=self.states, transitions=self.transitions,
+                            traces_validated_against_impl=self.traces_ok, alarms=len(self.violations), wall_s=round(wall, 2))
+        return 1 if (self.violations and not self.extension) else 0
